@@ -12,6 +12,15 @@ TRUST = ('Trusted base: rustc nightly THIR/MIR for this source (same cfgs as the
          'the evidence file.')
 
 CHECKS = {
+    'C03': {
+        'technique': 'guard-entailment over the dispatch (enum-aware truth table), assignment census of `authenticated`, value-implies-condition check, must-reach checks on the failure path',
+        'level': ('Decides structurally that only the six listed commands reach a handler on an unauthenticated '
+                  'connection, that `authenticated` is written only in authenticate() and only with a value that '
+                  'implies CAP ended + NICK + USER + mask match + the required password verified (user password '
+                  'before server password), that a wrong/missing password reaches 464 and the quit flag and never '
+                  'add_user, and that pre-registration handlers do not touch shared state.'),
+        'note': TRUST + ' Assumes argon2 verification is correct. Not decided: TLS/DNS effects on the source string.',
+    },
     'C07': {
         'technique': 'path-condition extraction + truth-table equivalence against the stated admission formula; effect/emission census',
         'level': ('Decides structurally, for all inputs and histories, that process_join admits iff '
